@@ -240,7 +240,7 @@ func run(c *vkit.Collector, rng *vkit.Rng, budget int) {
 	id := 0
 	for _, k := range counts {
 		for i := 0; i < k.n*budget; i++ {
-			jobs = append(jobs, job{ID: id, Kind: k.kind, Seed: rng.U64()})
+			jobs = append(jobs, job{ID: id, Kind: k.kind, Seed: rng.U64() >> 1}) // top bit clear: random history
 			id++
 		}
 	}
